@@ -88,3 +88,31 @@ Theorem C01_source_acceptance_sound : forall parse dsig decrypt cfg now enc r,
     (SignedPath dsig decrypt cfg now root r \/ UnsignedPath dsig decrypt cfg now root r).
 Proof. exact source_acceptance_sound. Qed.
 Print Assumptions C01_source_acceptance_sound.
+
+(* ---- the whole inbound pipeline composed from the source of this run (P_Pipeline.v): ValidateEncodedResponse over the
+   TRANSLATED parseResponse / maybeDeflate, decryptAssertions, getDecryptCert, DecryptBytes / DecryptSymmetricKey and the
+   validation stage.  Remaining oracles: DEFLATE, etree's parser, the round-trip validator, goxmldsig's Validate, RSA / AES,
+   X.509 parsing.  (src_chain is, argument by argument, the chain over the hand-written models: src_chain_pointwise.) ---- *)
+From V Require Import Decrypt Deflate GenPreludeE GenPreludeK GenPreludeDeflate GenDecrypt GenDecTree GenKeys GenDeflate P_GenDecTree P_Pipeline.
+Theorem C01_source_inbound_pipeline_is_the_model :
+  forall inflate read_from_bytes rt_ok dsig rsa_oaep rsa_pkcs1 gcm_open cbc_decrypt sha1_hex parse_cert cfg kc venc now enc,
+    norm_pm (G_ValidateEncodedResponse (src_parse inflate read_from_bytes rt_ok cfg) dsig
+               (src_decrypt_all inflate read_from_bytes rt_ok rsa_oaep rsa_pkcs1 gcm_open cbc_decrypt parse_cert cfg kc venc now) cfg now enc)
+    = PVal (norm_res (entry (model_parse inflate read_from_bytes rt_ok cfg) enc
+                        (validate_response_tree dsig
+                           (src_chain inflate read_from_bytes rt_ok rsa_oaep rsa_pkcs1 gcm_open cbc_decrypt sha1_hex parse_cert cfg kc venc now)
+                           cfg now))).
+Proof. exact source_inbound_pipeline. Qed.
+Print Assumptions C01_source_inbound_pipeline_is_the_model.
+
+Theorem C01_source_inbound_pipeline_sound :
+  forall inflate read_from_bytes rt_ok dsig rsa_oaep rsa_pkcs1 gcm_open cbc_decrypt sha1_hex parse_cert cfg kc venc now enc r,
+    cfg_skip_sig cfg = false ->
+    G_ValidateEncodedResponse (src_parse inflate read_from_bytes rt_ok cfg) dsig
+      (src_decrypt_all inflate read_from_bytes rt_ok rsa_oaep rsa_pkcs1 gcm_open cbc_decrypt parse_cert cfg kc venc now) cfg now enc
+    = PVal (Ok (Some r)) ->
+    let ch := src_chain inflate read_from_bytes rt_ok rsa_oaep rsa_pkcs1 gcm_open cbc_decrypt sha1_hex parse_cert cfg kc venc now in
+    exists raw root, b64_decode enc = Ok raw /\ model_parse inflate read_from_bytes rt_ok cfg raw = Ok root /\ validate cfg now r = Ok tt /\
+      (SignedPath dsig ch cfg now root r \/ UnsignedPath dsig ch cfg now root r).
+Proof. exact source_pipeline_acceptance_sound. Qed.
+Print Assumptions C01_source_inbound_pipeline_sound.
